@@ -49,8 +49,12 @@ type sApp struct {
 }
 
 var prims = []string{"int", "string", "bool", "date", "datetime", "float", "decimal", "bytes", "any", "int64", "string(10)"}
-var appPool = []string{"App1", "App2", "Ns :: App3", "Outer", "T", "Ns :: Sub :: App4"}
+
+// names in prefix relation (Model / ModelExt, A / A :: B, App1 / App10) and applications named like types (Outer, T)
+var appPool = []string{"App1", "App2", "Ns :: App3", "Outer", "T", "Ns :: Sub :: App4", "Model", "ModelExt", "A", "A :: B", "App10", "Ns"}
 var typePool = []string{"T", "U", "Outer", "Inner", "Id", "Color", "X", "Y", "Account", "Cust"}
+
+var prefixPairs = [][]string{{"Model", "ModelExt"}, {"A", "A :: B"}, {"App1", "App10"}, {"Ns", "Ns :: App3"}, {"Ns", "Ns :: Sub :: App4"}, {"ModelExt", "Model"}}
 
 type gen struct {
 	r    *common.Rng
@@ -206,8 +210,10 @@ func (g *gen) fill(t *sType) {
 				}
 				prev = tg
 				f.Text = g.refText(t.app, tg) + ".c0"
-			case k < 94:
+			case k < 92:
 				f.Text = g.pick(appPool[:2]) + ".Missing.c0"
+			case k < 94:
+				f.Text = "Nope.c0" // parsed as application Nope + one-element path
 			default:
 				tg := g.all[g.r.Intn(len(g.all))]
 				f.Text = g.pick([]string{"set of ", "sequence of "}) + g.pick([]string{"int", g.refText(t.app, tg)})
@@ -228,10 +234,20 @@ func generate(r *common.Rng, big bool) []*sApp {
 		na = 2 + r.Intn(3)
 	}
 	usedApp := map[string]bool{}
+	var pre []string
+	if r.Chance(1, 3) { // two applications whose names are in prefix relation
+		pre = prefixPairs[r.Intn(len(prefixPairs))]
+		if na < 2 {
+			na = 2
+		}
+	}
 	for i := 0; i < na; i++ {
 		an := g.pick(appPool)
 		for usedApp[an] {
 			an = g.pick(appPool)
+		}
+		if i < len(pre) {
+			an = pre[i]
 		}
 		usedApp[an] = true
 		a := &sApp{Name: an}
@@ -316,6 +332,10 @@ var corpus = []struct{ name, filter, text string }{
 	{"nested-table-next-to-table", "", "App1:\n    !table T:\n        c0 <: int [~pk]\n    !table X:\n        c0 <: int [~pk]\n        c1 <: T.c0\n        !table T:\n            c0 <: int [~pk]\n"},
 	{"enum-and-cross-app", "", "App1:\n    !type U:\n        f0 <: Color\n        f1 <: set of Ns :: App3.Y\n        f2 <: Ns :: App3.Y\n    !enum Color:\n        RED: 2\n        GREEN: 1\nNs :: App3:\n    !type Y:\n        f0 <: App1.U\n"},
 	{"per-app-view", "App1", "App1:\n    !type U:\n        f0 <: V\n        f1 <: App2.W\n        f2 <: App2.W\n    !type V:\n        f0 <: int\nApp2:\n    !type W:\n        f0 <: App1.U\n"},
+	{"per-app-view-prefix-name-short", "Model", "Model:\n    !type U:\n        f0 <: V\n        f1 <: ModelExt.W\n    !type V:\n        f0 <: int\nModelExt:\n    !type W:\n        f0 <: Model.U\n        f1 <: X\n    !type X:\n        f0 <: int\n    !table T:\n        c0 <: int [~pk]\n"},
+	{"per-app-view-prefix-name-long", "ModelExt", "Model:\n    !type U:\n        f0 <: V\n    !type V:\n        f0 <: int\nModelExt:\n    !type W:\n        f0 <: Model.U\n        f1 <: X\n    !type X:\n        f0 <: int\n"},
+	{"per-app-view-namespace-prefix", "A", "A:\n    !type U:\n        f0 <: A :: B.W\n    !enum Color:\n        RED: 1\nA :: B:\n    !type W:\n        f0 <: A.U\n    !alias Id:\n        int\n"},
+	{"table-dangling-key-by-bare-name", "", "App1:\n    !table T:\n        c0 <: int [~pk]\n        c1 <: Nope.c0\n        c2 <: T.c0\n"},
 	{"table-with-collections", "", "App1:\n    !table T:\n        c0 <: int [~pk]\n        c1 <: set of int\n        c2 <: sequence of U\n    !table U:\n        c0 <: int [~pk]\n"},
 }
 
@@ -339,17 +359,21 @@ func compile(text, filter string) (*sysl.Module, error) {
 	return parse.NewParser().ParseString(text)
 }
 
-func runReal(m *sysl.Module, filter string) (o obsT) {
+func runReal(m *sysl.Module, filter string, direct bool) (o obsT) {
 	defer func() {
 		if r := recover(); r != nil {
 			o.panicMsg = fmt.Sprint(r)
 		}
 	}()
 	// whole-model view: --direct with an output name without %(epname) (every application yields the same text);
-	// per-application view: project manner, the project's single endpoint naming that application
+	// per-application view: project manner (the project's single endpoint naming that application), or --direct
+	// with %(epname) in the output name, which draws one view per application
 	p := &cmdutils.CmdContextParamDatagen{Output: "all.png", Direct: true, ClassFormat: "%(classname)"}
 	key := "all.png"
-	if filter != "" {
+	if filter != "" && direct {
+		p = &cmdutils.CmdContextParamDatagen{Output: "%(epname).png", Direct: true, ClassFormat: "%(classname)"}
+		key = filter + ".png"
+	} else if filter != "" {
 		p = &cmdutils.CmdContextParamDatagen{Output: "%(epname).png", Project: projectApp, ClassFormat: "%(classname)"}
 		key = "View.png"
 	}
@@ -763,7 +787,7 @@ func judge(c *common.Ctx, m *sysl.Module, filter string, o obsT, replay interfac
 			}
 			tgt := existing[full]
 			if tgt == nil {
-				if ct.kind == "table" {
+				if ct.kind == "table" && len(tp) == 1 { // (a nested name falls under the nested-path resolution defect)
 					danglingTableRef = true
 				}
 				continue
@@ -880,7 +904,11 @@ func (a *atoms) gRef(r *sysl.ScopedRef) string {
 	for _, p := range r.GetRef().GetPath() {
 		ps = append(ps, a.str(p))
 	}
-	return fmt.Sprintf("(R %d %s [%s])", a.id(ctx), app, strings.Join(ps, ";"))
+	var parts []string
+	for _, p := range r.GetRef().GetAppname().GetPart() {
+		parts = append(parts, a.str(p))
+	}
+	return fmt.Sprintf("(R %d %s [%s] [%s])", a.id(ctx), app, strings.Join(parts, ";"), strings.Join(ps, ";"))
 }
 func (a *atoms) gElem(t *sysl.Type) string {
 	switch {
@@ -1054,7 +1082,7 @@ func main() {
 	c.Res.Rule = "each case = one generated Sysl module (1-4 applications; tuples, tables, enums, primitive and other aliases, unions, nested types; primitive, optional, set/sequence/list and reference fields: local, cross-application, self, repeated, nested-name, dangling) compiled by the real parser and drawn by GenerateDataModels (--direct), whole-model view or the per-application view of one application; distinct = distinct (text, view); non-trivial = at least one field refers to a type the diagram draws"
 	header := `From Coq Require Import List NArith PArith Bool. Import ListNotations.
 Require Import Verif.DataModel.DmShapeTypes Verif.DataModel.DmModel Verif.DataModel.Run Verif.Base.Harness.
-Definition R (c:positive) (a:option positive) (p:list (list positive)) := {| r_ctx := c; r_app := a; r_path := p |}.
+Definition R (c:positive) (a:option positive) (ps p:list (list positive)) := {| r_ctx := c; r_app := a; r_parts := ps; r_path := p |}.
 Definition En (a:positive) (n:list positive) (d:tdef) := {| e_app := a; e_name := n; e_def := d |}.`
 	footer := `Definition M := Eval vm_compute in mismatches c15_ok cases. Print M.`
 	cs := c.NewCases("C15", header, "c15_case", footer, 60)
@@ -1073,8 +1101,16 @@ Definition En (a:positive) (n:list positive) (d:tdef) := {| e_app := a; e_name :
 				rp.Filter = ""
 			}
 		}
-		o := runReal(m, filter)
+		o := runReal(m, filter, false)
 		nt := judge(c, m, filter, o, rp)
+		if filter != "" { // the same view through the other entry point
+			od := runReal(m, filter, true)
+			judge(c, m, filter, od, rp)
+			if od.text != o.text || od.panicMsg != o.panicMsg {
+				c.Fail("view-entry-modes-differ", "the per-application view of "+filter+" differs between --direct and project manner", rp)
+			}
+			c.Hist("view:per-app-both-entry-modes")
+		}
 		h := sha1.Sum([]byte(text + "|" + filter))
 		c.Count(fmt.Sprintf("%x", h[:8]), nt)
 		if filter != "" {
@@ -1155,7 +1191,7 @@ Definition En (a:positive) (n:list positive) (d:tdef) := {| e_app := a; e_name :
 		cs.Close()
 		m, err := compile(rp.Text, rp.Filter)
 		if err == nil {
-			o := runReal(m, rp.Filter)
+			o := runReal(m, rp.Filter, false)
 			fmt.Printf("replay %s (view %q): panic=%q failures=%d\n%s\n", rp.Name, rp.Filter, o.panicMsg, len(c.Res.Failures), o.text)
 		}
 		for _, f := range c.Res.Failures {
